@@ -306,8 +306,20 @@ def run(tier, seed=0, replay=None, procs=None, only=None):
     if only:
         cs = [c for c in cs if re.search(only, c.name)]
     q = tier == 'quick'
+    from symx import envsweep
+
+    def depths_ok(v):
+        for k in range(6):
+            name = f'depth{k}' if k % 2 else f'k{k}'
+            want = [20.0 * (k + 1), 5.0 * (k + 1), 1.0 * (k + 1)]
+            if v[name]['values'] != want or v[name]['positive'] != 'down' or v[name]['long_name'] != f'depth {k}' or v[name]['dims'] != [f'k{k}']:
+                return False
+            if v[f'v{k}'] != [4.0 + k, 2.0 + k, 0.0 + k]:
+                return False
+        return True
     return main_run(
         PROP, tier, cs, functions=functions(), seed=seed, procs=procs,
+        late_checks=envsweep.late([('normalise_depths_by_name', 'values carry the requested sign and every level keeps its physical depth', depths_ok)], only),
         bounds=dict(
             levels=f'2..{3 if q else 4} depth levels', options='all 9 combinations of positive_down x deep_to_shallow in {None, True, False}',
             positive='attribute values up/down in several letter cases (CF: case-insensitive), or absent (then depth values '
